@@ -15,6 +15,8 @@ import sys
 import types
 
 _PRISTINE = None
+_SCALARS = []  # (owner, name, value): rebindable module globals / class attributes
+_SCALAR_TYPES = (type(None), bool, int, float, str, bytes, tuple, frozenset)
 
 
 def _mutable(x):
@@ -45,6 +47,7 @@ def _collect():
             for d in (f.__kwdefaults__ or {}).values():
                 add(d)
 
+    del _SCALARS[:]
     for name, mod in sorted(sys.modules.items()):
         if mod is None or not (name == "valida" or name.startswith("valida.")):
             continue
@@ -52,6 +55,10 @@ def _collect():
             if k.startswith("__"):
                 continue
             add(v)
+            if isinstance(v, _SCALAR_TYPES):
+                _SCALARS.append((mod, k, v))  # e.g. a module-level "current document" slot
+            elif type(v).__module__.startswith("valida") and hasattr(v, "__dict__") and not isinstance(v, type):
+                add(vars(v))  # a module-level scratch / singleton object
             if isinstance(v, (types.FunctionType, staticmethod, classmethod)) or hasattr(v, "cache_clear"):
                 add_func(v)
             elif isinstance(v, type) and getattr(v, "__module__", "").startswith("valida"):
@@ -59,6 +66,8 @@ def _collect():
                     if ck.startswith("__") and ck.endswith("__") and ck not in ("__init__", "__new__", "__call__"):
                         continue
                     add(cv)
+                    if isinstance(cv, _SCALAR_TYPES):
+                        _SCALARS.append((v, ck, cv))  # e.g. a class-level slot
                     if isinstance(cv, (types.FunctionType, staticmethod, classmethod, property)) or hasattr(cv, "cache_clear"):
                         if isinstance(cv, property):
                             for g in (cv.fget, cv.fset, cv.fdel):
@@ -91,6 +100,14 @@ def reset():
             if f.cache_info().currsize:
                 drift += 1
             f.cache_clear()
+        except Exception:
+            pass
+    for owner, name, value in _SCALARS:
+        try:
+            cur = owner.__dict__.get(name, _SCALARS)
+            if cur is not value and cur != value or type(cur) is not type(value):
+                drift += 1
+                setattr(owner, name, value)
         except Exception:
             pass
     return drift
@@ -128,3 +145,18 @@ class pristine_state:
                 live.clear()
                 live.update(saved)
         return False
+
+
+def global_token():
+    """A cheap token of valida's module-level / class-level state: identities of
+    the values bound to rebindable slots and sizes of module-level containers.
+    A change between two pre-emption points means the running caller has just
+    stored into process-wide state (used by the after-write strategy: that is
+    the moment to let another caller run)."""
+    global _PRISTINE
+    if _PRISTINE is None:
+        _PRISTINE = _collect()
+    objs, _caches = _PRISTINE
+    tok = [id(owner.__dict__.get(name)) for owner, name, _v in _SCALARS]
+    tok.extend(len(live) for live, _p in objs)
+    return tuple(tok)
